@@ -263,6 +263,34 @@ def r13_5(ctx):
         r.ok({"budget derives from": sorted(srcs)})
     else:
         r.violate(b.name, "def:budget", b.where(0), "window budget does not depend on %s (depends on %s)" % (sorted(need - srcs), sorted(srcs)))
+    # the in-flight amount subtracted from the window is read AFTER the retransmit phase has put chunks back in
+    # flight: no write of flight_size lies between that read and the budget computation
+    fw = [x[0] for op in ("fetch_add", "fetch_sub", "store", "fetch_update", "swap") for x in core.atomic_sites(b, "flight_size", op)]
+    avail = None
+    for bi, t, p in b.calls():
+        if p and p.endswith("saturating_sub") and len(t["a"]) == 2 and "p" not in t["dst"] and b.locals[t["dst"]["l"]].get("n") == "available":
+            avail = (bi, t)
+    if avail is None:
+        raise core.CheckerError("R13.5: `available = effective_window.saturating_sub(in flight)` not found")
+    abi, at = avail
+    from engine import layout as _layout
+    root = _layout._root(b, at["a"][1])
+    lb = None
+    if root is not None:
+        ds = b.defs().get(root, [])
+        if len(ds) == 1 and ds[0][0] == "t":
+            lb = ds[0][1]
+    if lb is None or not core.is_atomic_load(b.term_call(b.blocks[lb]["t"]), "flight_size"):
+        r.violate(b.name, "budget:flight", b.where(abi), "the amount subtracted from the effective window is not a load of flight_size")
+    else:
+        between = [w for w in fw if w in core.reach_from(b, lb) and abi in core.reach_from(b, w)]
+        if not between:
+            r.ok({"site": b.where(abi), "in flight": "flight_size loaded at %s, no write of flight_size in between" % b.where(lb)})
+        else:
+            r.violate(b.name, "budget:stale-flight", b.where(abi),
+                      "the new-data budget subtracts a flight_size value read at %s, before the retransmit phase adds the retransmitted "
+                      "chunks back (%s): retransmissions are not counted against rwnd/cwnd and the window is overshot" %
+                      (b.where(lb), b.where(between[0])))
     # budget shrinks by the chunk size on every dequeue
     dec = False
     for bi, si, s in b.assigns():
